@@ -37,6 +37,10 @@ def run(ctx, chk):
             if ("lib", n) not in P.sigs:
                 continue
             sig = P.sigs[("lib", n)]
+            if not sig.get("pub"):
+                # a private helper is reachable only through its callers in this crate, which decide what it is handed:
+                # its sites are classified in their contexts, not for arbitrary arguments
+                continue
             if any(t in ("T", "V") or "Formatter" in t or t.startswith("&Self") or t == "&util::address::Address" for t in sig["inputs"]):
                 continue  # generic helpers are classified through their instantiations
             if any(not (("VM" in t) or M.int_type(t.replace("&mut ", "").replace("&", "")) or "ByteReg" in t or "WordReg" in t or "Flags" in t or "FlagsToSet" in t) for t in sig["inputs"]):
